@@ -12,8 +12,8 @@ Idempotence for WHOLE DOCUMENTS of every kind (`encoding_is_idempotent`, from `C
 
 where `Clean` is a decidable, kind-agnostic condition on the first output: no member with value `null`, no
 member name that is a case variant of a keyword (the property's own exception) or an upper-case `X-` spelling
-of the extension prefix, numbers exactly representable in a float64, `$ref`/`$schema` texts fixed under the
-URL printing model (C13's subject).  Side conditions on the REGENERATED tables are discharged by `decide`
+of the extension prefix, numbers exactly representable in a float64 (that the printed `$ref`/`$schema` texts are fixed
+under the URL printing model is proved inside, from `urlString_idem`, not assumed).  Side conditions on the REGENERATED tables are discharged by `decide`
 (`idem_tables_ok`).  Without `Clean` the statement is FALSE on the current tree (K-C07-1 below: the first
 output holds `"items": null`, which is exactly what `Clean` excludes).
 
@@ -133,18 +133,15 @@ theorem encoding_is_idempotent_at (fuel : Nat) (k : String) (j j₁ : Json)
 
 instance (k : String) : Decidable (NameOK k) := by unfold NameOK; exact inferInstance
 
-theorem refTextOK_of_ne {k : String} {v : Json} (h1 : k ≠ "$ref") (h2 : k ≠ "$schema") : RefTextOK k v := by
-  intro h; rcases h with h | h <;> contradiction
-
 example : norm "license" (.obj [("url", .str "u"), ("name", .str "MIT"), ("x-a", .num 1)])
     = .ok (.obj [("name", .str "MIT"), ("url", .str "u"), ("x-a", .num 1)]) := by rfl
 
 set_option maxRecDepth 100000 in
 example : Clean (.obj [("name", .str "MIT"), ("url", .str "u"), ("x-a", .num 1)]) := by
   simp only [Clean, CleanM]
-  exact ⟨by decide, by simp, refTextOK_of_ne (by decide) (by decide), trivial,
-    by decide, by simp, refTextOK_of_ne (by decide) (by decide), trivial,
-    by decide, by simp, refTextOK_of_ne (by decide) (by decide), by decide, trivial⟩
+  exact ⟨by decide, by simp, trivial,
+    by decide, by simp, trivial,
+    by decide, by simp, by decide, trivial⟩
 
 /-- `Clean` is not trivially true: the output behind K-C07-1 is rejected, and so is a case variant of a keyword -/
 example : ¬ Clean (.obj [("items", .null)]) := by simp [Clean, CleanM]
